@@ -56,7 +56,7 @@ def explore_pair(args):
         def run_side(I, side, inp):
             try:
                 if side == "vm":
-                    vm = pegsym.build_vm(P, vm_rules)
+                    vm = pegsym.build_vm(P, vm_rules, I)
                     return ("R", I.call("", "Vm::parse", [Ptr(Cell(vm)), str_const(start.encode()), inp]))
                 rule = I.make_adt(f"g{gi}::Rule::{start}", [])
                 return ("R", I.call("", f"<G{gi} as Parser>::parse", [rule, inp]))
